@@ -11,6 +11,7 @@ import TemplVerif.Drive.C11
 import TemplVerif.Drive.C0809
 import TemplVerif.Drive.C0607
 import TemplVerif.Drive.C10
+import TemplVerif.Drive.C13
 import Std.Data.HashMap
 open TemplVerif TemplVerif.Drive
 
@@ -26,6 +27,7 @@ def dispatch (ws : List String) : Verdict :=
   | "C18" :: rest => C18.handle rest
   | "C11" :: rest => C11.handle rest
   | "C10" :: rest => C10.handle rest
+  | "C13" :: rest => C13.handle rest
   | "C06" :: rest => C0607.handleC06 rest
   | "C07" :: rest => C0607.handleC07 rest
   | "C08" :: rest => C0809.handleC08 rest
